@@ -6,7 +6,7 @@ import torch.nn as nn
 
 from qv import fp, gen
 
-MODEL_KINDS = ["linear", "mlp_small", "mlp_big", "mlp_ln", "conv", "convnet", "mlp_nested"]
+MODEL_KINDS = ["linear", "mlp_small", "mlp_big", "mlp_ln", "conv", "convnet", "mlp_nested", "scalar_head", "two_heads"]
 
 
 class Block(nn.Module):
@@ -17,6 +17,24 @@ class Block(nn.Module):
 
     def forward(self, x):
         return self.act(self.fc(x))
+
+
+class TwoHeads(nn.Module):
+    """A shared trunk read by two heads, one of them scalar (value / reward head)."""
+
+    def __init__(self):
+        super().__init__()
+        self.trunk = nn.Linear(16, 16)
+        self.value = nn.Linear(16, 1)
+        self.policy = nn.Linear(16, 4)
+
+    def forward(self, x):
+        h = torch.relu(self.trunk(x))
+        h = h.dequantize() if hasattr(h, "qtype") else h
+        v, p = self.value(h), self.policy(h)
+        v = v.dequantize() if hasattr(v, "qtype") else v
+        p = p.dequantize() if hasattr(p, "qtype") else p
+        return torch.cat([p, v], dim=-1)
 
 
 def build(kind, wd, rng=None):
@@ -34,6 +52,10 @@ def build(kind, wd, rng=None):
     elif kind == "convnet":
         m, shape = nn.Sequential(nn.Conv2d(2, 4, 3, padding=1, padding_mode="circular"), nn.ReLU(),
                                  nn.Conv2d(4, 4, 3, groups=2, bias=False), nn.Flatten(), nn.Linear(4 * 4 * 4, 8)), (2, 2, 6, 6)
+    elif kind == "scalar_head":
+        m, shape = nn.Sequential(nn.Linear(16, 16), nn.ReLU(), nn.Linear(16, 1)), (5, 16)
+    elif kind == "two_heads":
+        m, shape = TwoHeads(), (3, 16)
     elif kind == "mlp_nested":
         m, shape = nn.Sequential(Block(16), nn.Sequential(Block(16), nn.Linear(16, 4))), (3, 16)
     else:
@@ -49,7 +71,7 @@ def batch(rng, shape, wd, mag=None):
 def crash_hazard(kind, wd, wq, aq):
     """True when a Linear of this model falls into a known native crash class (C07-F33/F34)."""
     feats = {"linear": [24], "mlp_small": [16, 32], "mlp_big": [160, 256], "mlp_ln": [32, 32], "conv": [],
-             "convnet": [64], "mlp_nested": [16, 16, 16]}[kind]
+             "convnet": [64], "mlp_nested": [16, 16, 16], "scalar_head": [16, 16], "two_heads": [16, 16, 16]}[kind]
     return any(gen.int8pack_crash_class(wd, wq, f, quantized_activations=aq is not None) for f in feats)
 
 
